@@ -46,6 +46,8 @@ def k_subsample(ctx, counts, n, np_seed):
     import pyrepseq as prs
     total = sum(counts)
     ctx.count("subsample_cases")
+    if len(counts) > 32768:
+        ctx.count("subsample_many_categories")
     ctx.nontriv(["sub", counts, n, np_seed])
     ctx.sample("subsample", {"counts": counts[:10], "n": n, "total": total})
     np.random.seed(np_seed)
@@ -117,6 +119,10 @@ def k_downsample(ctx, seqs, maxseqs, container, np_seed):
         if container == "table_dupindex":
             ctx.count("downsample_table_duplicated_index")
         x = pd.DataFrame({"CDR3B": seqs, "tag": [f"t{i}" for i in range(len(seqs))]}, index=idx)
+        if np_seed % 3 == 0:
+            # the optional standard column clone_count, with empty / missing counts: rows are rows, whatever it says
+            x["clone_count"] = [[0, float("nan"), 3, 1][i % 4] for i in range(len(seqs))]
+            ctx.count("downsample_table_with_clone_count")
     elif container == "ndarray":
         x = np.array(seqs)
     elif container == "series":
@@ -210,6 +216,16 @@ def k_mle(ctx, c, cmin):
                 ctx.violation(f"powerlaw_mle_alpha:{method}:raised", "raised", out.describe(), want)
             elif not abs(float(out.value) - want) <= 1e-12 * max(1.0, abs(want)):
                 ctx.violation(f"powerlaw_mle_alpha:{method}:wrong", f"not the documented closed form over the {n} counts >= cmin", out.value, want)
+        # the same counts as narrow integer arrays (closed forms only)
+        for dt, lim in (("uint8", 255), ("int8", 127), ("uint16", 65535), ("float32", 2 ** 24)):
+            if max(c) <= lim and all(float(v) == int(v) for v in c):
+                for method, s_ in (("simple", s_simple), ("continuitycorrection", s_cc)):
+                    want = 1 + n / s_
+                    out = ctx.call(prs.powerlaw_mle_alpha, np.array(c, dtype=dt), cmin=cmin, method=method)
+                    ctx.count("mle_narrow_dtype_calls")
+                    tol = 1e-12 if dt != "float32" else 1e-6
+                    if not out.ok or not abs(float(out.value) - want) <= tol * max(1.0, abs(want)):
+                        ctx.violation(f"powerlaw_mle_alpha:{method}:{dt}:wrong", f"not the documented closed form when the counts are a {dt} array", out.describe(), want)
     # exact: maximiser of the discrete likelihood within its bounds
     if n >= 2 and isinstance(cmin, int) and max(kept) > cmin:
         # documented default bounds, then bounds given by the caller (forwarded keyword): the answer is a maximiser within *those*
@@ -262,6 +278,10 @@ def generate(tier, seed):
             for n in range(0, tot + 2):
                 for s in range(3 if thorough else 1):
                     yield "subsample", {"counts": list(counts), "n": n, "np_seed": seed * 1000 + s + n}, True
+    # tens of thousands of categories (labels beyond 2^15 and 2^16)
+    for j, L in enumerate([40000, 70000] if not thorough else [32769, 40000, 65535, 65537, 70000, 140000]):
+        counts = [1 + (i % 3 == 0) for i in range(L)]
+        yield "subsample", {"counts": counts, "n": [200, sum(counts) - 5, 3000][j % 3], "np_seed": seed * 23 + j}, True
     for i in range(2000 * TS if thorough else 150):
         L = rng.randint(1, 40)
         counts = [rng.randint(0, rng.choice([1, 5, 200])) for _ in range(L)]
